@@ -29,7 +29,11 @@ fn("hypercorn.trio.run:worker_serve",
        "trio.SSLListener": [("C14.before.tls-listener", STARTED, "C14")],
        "nursery.start_soon(serve_listeners)": [("C14.before.serve", STARTED, "C14")],
        # C15.order: the application's lifespan.shutdown comes only after shutdown has been announced to the connections
-       "Lifespan.wait_for_shutdown": [("C15.order", "context.terminated.is_set()", "C15,C14")],
+       "Lifespan.wait_for_shutdown": [("C15.order", "context.terminated.is_set()", "C15,C14"),
+                                      # C14 "only after connections have drained or the graceful timeout has elapsed":
+                                      # the server nursery (whose join waits for the connection handlers, at most until
+                                      # the deadline set at the trigger) has been left
+                                      ("C14.shutdown-after-drain", "trace_any('joined', 'j', same(j[2], server_nursery))", "C14,C15")],
    }},
    loops={i: {"locals": {"sock": "obj io:ListenSocket", "bind": "str", "binds": "strs", "listeners": "objs trio:Listener"},
               "invariant": [("serve.loop.started", "lifespan.g_startup_returned", "C14")]} for i in range(6)},
@@ -64,7 +68,10 @@ fn("hypercorn.asyncio.run:worker_serve",
    raises={"LifespanTimeoutError": None, "BaseExceptionGroup": None, "Exception": None, "asyncio.CancelledError": None},
    model_opts={"clock": True, "call_requires": {
        "asyncio.start_server": [("C14.before.start_server", ASTARTED, "C14")],
-       "Lifespan.wait_for_shutdown": [("C15.order", "context.terminated.is_set()", "C15,C14")],
+       "Lifespan.wait_for_shutdown": [("C15.order", "context.terminated.is_set()", "C15,C14"),
+                                      # C14 "only after connections have drained or the graceful timeout has elapsed":
+                                      # the connection tasks have been waited for, with the graceful timeout as limit
+                                      ("C14.shutdown-after-drain", "trace_any('waited', 'w', same(w[0], gathered_server_tasks) and w[1] == config.graceful_timeout)", "C14,C15")],
    }},
    loops=_merge({i: {"locals": {"sock": "obj io:ListenSocket", "bind": "str", "servers": "objs asyncio:Server", "server": "obj asyncio:Server"},
                    "invariant": [("serve.loop.started", "lifespan.g_startup_returned", "C14")]} for i in (0, 1, 2, 3)},
